@@ -27,3 +27,5 @@ func vGoID() int
 func vFuncID(f any) uintptr
 func vRank(s string) int
 func vDocWithout(tag string, absent string) []byte
+func vSQLKind(q string) (int, int, bool, int)
+func vUnsupported(msg string)
